@@ -39,6 +39,14 @@ pub fn check_assignment(c: &Corpus, lay: &Layout, fm: &FieldMap, label: &str, p:
             continue;
         }
         let replay = json!({"kind": lay.name, "mode": mode_name(compressed), "case": label, "fields": json_of(fm), "typed": clip(&typed_dbg)});
+        // every few packets an encode that fails (a packet too large for the uncompressed mode: refused or aborted) runs
+        // on this thread right before: the next frame must not inherit anything from it
+        if p.evaluations % 5 == 0 {
+            let big = insim::Packet::Axm(insim::insim::Axm { info: vec![Default::default(); 40], ..Default::default() });
+            if matches!(real_encode(&big, false), Enc::Ok(_)) {
+                p.count("oversize_packet_unexpectedly_encoded", 1);
+            }
+        }
         let frame = match real_encode(&typed, compressed) {
             Enc::Ok(b) => b,
             Enc::Err(e) => {
